@@ -2,3 +2,19 @@ import FormulaeModel.Properties.C02
 open FormulaeModel
 #print axioms C02.resolver_ops_tie
 #print axioms C02.resolver_shape
+#print axioms C02.C02_plain_refines_partial
+#print axioms C02.C02_plain_terms_nodup
+#print axioms C02.C02_plain_refines_counterexample_D22
+#print axioms C02.C02_plain_refines_counterexample_D24
+#print axioms C02.C02_plain_refines_counterexample_D25
+#print axioms C02.C02_plain_total_expGe2
+#print axioms C02.C02_plain_total_partial
+#print axioms C02.C02_plain_total_counterexample_D5
+#print axioms C02.C02_nodup
+#print axioms C02.C02_nodup_counterexample
+#print axioms C02.C02_refines_partial
+#print axioms C02.C02_refines_counterexample_D3
+#print axioms C02.C02_refines_counterexample_D22
+#print axioms C02.C02_refines_counterexample_D24
+#print axioms C02.C02_refines_counterexample_D25
+#print axioms C02.C02_refines_needs_scanner_shape
